@@ -918,6 +918,9 @@ def run_relational(ctx, rounds):
                 ('tuple-ge', "select(p.id for p in Pupil if (p.a, p.b) >= (x1, y1))", lambda: [p.id for p in P_ if (p.a, p.b) >= (x1, y1)]),
                 ('tuple-lt', "select(p.id for p in Pupil if (p.a, p.b) < (x1, y1))", lambda: [p.id for p in P_ if (p.a, p.b) < (x1, y1)]),
                 ('tuple-gt', "select(p.id for p in Pupil if (p.a, p.b, p.id) > (x1, y1, 2))", lambda: [p.id for p in P_ if (p.a, p.b, p.id) > (x1, y1, 2)]),
+                ('tuple3-le', "select(p.id for p in Pupil if (p.a, p.b, p.id) <= (x1, y1, 3))", lambda: [p.id for p in P_ if (p.a, p.b, p.id) <= (x1, y1, 3)]),
+                ('tuple3-ge', "select(p.id for p in Pupil if (p.b, p.a, p.id) >= (y1, x1, 2))", lambda: [p.id for p in P_ if (p.b, p.a, p.id) >= (y1, x1, 2)]),
+                ('tuple4-lt', "select(p.id for p in Pupil if (p.a, p.a, p.b, p.id) < (x1, p.a, y1, 4))", lambda: [p.id for p in P_ if (p.a, p.a, p.b, p.id) < (x1, p.a, y1, 4)]),
                 ('tuple-eq', "select(p.id for p in Pupil if (p.a, p.b) == (x1, y1))", lambda: [p.id for p in P_ if (p.a, p.b) == (x1, y1)]),
                 ('tuple-ne', "select(p.id for p in Pupil if (p.a, p.b) != (x1, y1))", lambda: [p.id for p in P_ if (p.a, p.b) != (x1, y1)]),
                 # membership in a collection of optional references
@@ -974,6 +977,9 @@ def run_tuple_and_refset_witnesses(ctx):
         for key, q, exp in [
             ('tuple-comparison-le-ge-first-component-not-strict', 'select(s.id for s in WS if (s.a, s.b) <= (1, 3))', [s.id for s in S_ if (s.a, s.b) <= (1, 3)]),
             ('tuple-comparison-le-ge-first-component-not-strict', 'select(s.id for s in WS if (s.a, s.b) >= (1, 4))', [s.id for s in S_ if (s.a, s.b) >= (1, 4)]),
+            ('tuple-comparison-three-components', 'select(s.id for s in WS if (s.a, s.b, s.id) <= (1, 0, 9))', [s.id for s in S_ if (s.a, s.b, s.id) <= (1, 0, 9)]),
+            ('tuple-comparison-three-components', 'select(s.id for s in WS if (s.a, s.b, s.id) > (1, 5, 0))', [s.id for s in S_ if (s.a, s.b, s.id) > (1, 5, 0)]),
+            ('tuple-comparison-three-components', 'select(s.id for s in WS if (s.id, s.a, s.b, s.a) >= (s.id, 0, 9, 1))', [s.id for s in S_ if (s.id, s.a, s.b, s.a) >= (s.id, 0, 9, 1)]),
             ('not-in-collection-of-optional-references-with-null', 'select((g.id, t.id) for g in WG for t in WT if t not in g.members.tutor)',
              [(g_.id, t_.id) for g_ in WG.select() for t_ in WT.select() if t_ not in [s.tutor for s in g_.members]])]:
             ctx.case(['witness', key, q], kind='witness')
@@ -1215,6 +1221,65 @@ def run_joins(ctx, n_exprs):
         else: ctx.count('join:checker-not-applicable(outside fragment)')
 
 
+# ---------------------------------------------------------------- datetime / date / time columns against INLINE constants
+
+def run_temporal(ctx, n):
+    """`e.at <op> datetime(2020, 1, 1, 10, 0, 0)` etc.: constants written inline in the query (ConstMonad -> VALUE -> the literal text of
+    SQLiteValue.__str__), zero and non-zero microseconds, midnight, date-only; rows exactly at, one microsecond around, and far from the
+    constant; all six operators and `in` / `not in`; optional (NULL) columns; generator and string forms."""
+    import datetime as dtm
+    rng = ctx.rng
+    db = Database()
+    class TE(db.Entity):
+        at = Required(dtm.datetime)
+        d = Required(dtm.date)
+        t = Required(dtm.time)
+        oat = Optional(dtm.datetime)
+    db.bind('sqlite', ':memory:'); db.generate_mapping(create_tables=True)
+    DT = [dtm.datetime(2020, 1, 1, 10, 0, 0), dtm.datetime(2020, 1, 1, 10, 0, 0, 1), dtm.datetime(2020, 1, 1, 9, 59, 59, 999999), dtm.datetime(2020, 1, 1, 0, 0, 0),
+          dtm.datetime(2019, 12, 31, 23, 59, 59), dtm.datetime(2020, 1, 1, 10, 0, 0, 500000), dtm.datetime(2020, 1, 2, 0, 0, 0), dtm.datetime(2021, 6, 15, 12, 30, 45, 123456)]
+    TM = [dtm.time(10, 0, 0), dtm.time(10, 0, 0, 1), dtm.time(0, 0, 0), dtm.time(23, 59, 59, 999999), dtm.time(9, 59, 59)]
+    rows = []
+    for i, v in enumerate(DT + [rng.choice(DT) for _ in range(4)]):
+        rows.append({'at': v, 'd': v.date(), 't': rng.choice(TM) if i % 2 else v.time(), 'oat': rng.choice([None, v, rng.choice(DT)])})
+    with db_session:
+        for r in rows: TE(**{k: v for k, v in r.items() if v is not None})
+    def lit(v):
+        if isinstance(v, dtm.datetime): return 'datetime(%d, %d, %d, %d, %d, %d%s)' % (v.year, v.month, v.day, v.hour, v.minute, v.second, (', %d' % v.microsecond) if v.microsecond else '')
+        if isinstance(v, dtm.date): return 'date(%d, %d, %d)' % (v.year, v.month, v.day)
+        return 'time(%d, %d, %d%s)' % (v.hour, v.minute, v.second, (', %d' % v.microsecond) if v.microsecond else '')
+    OPS = {'==': lambda a, b: a == b, '!=': lambda a, b: a != b, '<': lambda a, b: a < b, '<=': lambda a, b: a <= b, '>': lambda a, b: a > b, '>=': lambda a, b: a >= b}
+    G = dict(TE=TE, select=select, datetime=dtm.datetime, date=dtm.date, time=dtm.time)
+    with db_session:
+        cases = []
+        for col, consts in (('at', DT), ('oat', DT), ('d', sorted({v.date() for v in DT})), ('t', TM)):
+            for cst in consts:
+                for op in OPS:
+                    cases.append((col, op, [cst]))
+                cases.append((col, 'in', [cst, rng.choice(consts)])); cases.append((col, 'not in', [cst]))
+        if not ctx.thorough: cases = [c for c in cases if c[2][0] in (DT[0], DT[3], DT[1], DT[0].date(), TM[0], TM[2])] + rng.sample(cases, 40)
+        for col, op, cs in cases:
+            if op in OPS:
+                src = 'e.%s %s %s' % (col, op, lit(cs[0]))
+                exp = [i + 1 for i, r in enumerate(rows) if r[col] is not None and OPS[op](r[col], cs[0])]
+            else:
+                src = 'e.%s %s (%s)' % (col, op, ''.join(lit(c) + ', ' for c in cs))
+                exp = [i + 1 for i, r in enumerate(rows) if r[col] is not None and ((r[col] in cs) == (op == 'in'))]
+            for form in ('generator', 'string'):
+                ctx.case(['temporal', form, src], kind='temporal:' + form)
+                try:
+                    q = eval('select(e.id for e in TE if %s)' % src, G) if form == 'generator' else select('e.id for e in TE if ' + src, G)
+                    got = sorted(q[:])
+                except Exception as ex:
+                    ctx.count('temporal:%s:raises:%s' % (form, type(ex).__name__)); continue
+                if got != exp:
+                    bad = sorted(set(got) ^ set(exp))
+                    ctx.violation('a date/time column compared with an inline constant returns other rows than Python (%s form)' % form,
+                                  {'query': 'select(e.id for e in TE if %s)' % src, 'row': {col: str(rows[bad[0] - 1][col])}, 'sql': q.get_sql().split('WHERE')[-1].strip()},
+                                  observed=got, expected=exp, key='temporal-inline-constant:%s:%s' % (col, op))
+    db.disconnect()
+
+
 def run_optional_ref_witness(ctx):
     """navigation through an OPTIONAL reference adds an inner join that drops every row whose reference is missing"""
     db = Database()
@@ -1246,6 +1311,7 @@ def run(ctx):
         ('witnesses', lambda: (run_witnesses(ctx), run_optional_ref_witness(ctx), run_tuple_and_refset_witnesses(ctx), run_subquery_null_witness(ctx), run_arith_witnesses(ctx))),
         ('exists', lambda: run_exists(ctx, ctx.scale(40, 400))),
         ('joins', lambda: run_joins(ctx, ctx.scale(40, 400))),
+        ('temporal', lambda: run_temporal(ctx, 0)),
         ('subquery-nulls', lambda: run_subquery_nulls(ctx, ctx.scale(4, 40))),
         ('string-index', lambda: run_string_index(ctx, ctx.scale(25, 300))),
         ('relational', lambda: run_relational(ctx, ctx.scale(4, 40))),
